@@ -69,12 +69,12 @@ class Drv:
             pass
         self.alive = False
 
-    def batch(self, cmds, timeout=None):
-        """send commands, return one reply line (str) per command"""
+    def batch(self, cmds, timeout=None, want=None):
+        """send commands, return one reply line (str) per command (or `want` lines)"""
         if not cmds: return []
         timeout = timeout or self.timeout
         data = ('\n'.join(cmds) + '\nF\n').encode()
-        want = len(cmds)
+        want = len(cmds) if want is None else want
         lines = []
         fdw = self.p.stdin.fileno(); fdr = self.p.stdout.fileno()
         off = 0; deadline = time.time() + timeout
